@@ -223,6 +223,21 @@ func cycleConfigs(thorough bool) []config {
 	return out
 }
 
+// a client that stops reading for a while: the server's writes (DATA, WINDOW_UPDATE, RST_STREAM) block
+func pauseConfigs(thorough bool) []config {
+	depth := 6
+	if thorough {
+		depth = 7
+	}
+	return []config{
+		{Name: "pause/send", Mode: "send", IWS0: ledger.DefaultWindow, ConnRoom: -1, WriteN: []int64{1000}, WUk: []int64{7}, Pause: true, MaxStreams: 2, Depth: depth},
+		{Name: "pause/recv", Mode: "recv", PerStream: 20000, PerConn: 65535, RecvRoom: -1, DataLen: []int64{5000}, Pads: []int{-1}, ReadN: []int64{100000},
+			ClosedLen: []int64{5000}, Pause: true, MaxStreams: 1, Depth: depth},
+		{Name: "pause/duplex", Mode: "duplex", IWS0: 5, ConnRoom: -1, PerStream: 20000, PerConn: 65535, RecvRoom: -1, WriteN: []int64{5}, WUk: []int64{7},
+			DataLen: []int64{5000}, Pads: []int{-1}, ReadN: []int64{100000}, Pause: true, MaxStreams: 1, Depth: depth},
+	}
+}
+
 // full-duplex handlers: a response blocked by the client's send window while the request body is being read
 func duplexConfigs(thorough bool) []config {
 	var out []config
@@ -670,6 +685,9 @@ func TestCheck(t *testing.T) {
 		cfgs = append(cfgs, serverSpace(c))
 	}
 	for _, c := range duplexConfigs(thorough) {
+		cfgs = append(cfgs, serverSpace(c))
+	}
+	for _, c := range pauseConfigs(thorough) {
 		cfgs = append(cfgs, serverSpace(c))
 	}
 	for _, c := range transportConfigs(thorough) {
